@@ -150,7 +150,7 @@ func init() {
 
 func checkC19(c *Ctx) {
 	r := c.Rng
-	c.Ev.Coverage.Rule = "Deserialize under recover and a deadline, then every read method on each returned result; blobs whose declared section sizes exceed 4 MiB are skipped (the property's 'small enough to allocate'). Streams: structure-aware mutation of valid blobs in all four modes (the framing is parsed, then tag bytes — each position x the 15 meaningful tags and others —, value words (0, +-1, -off, > len, random), declared sizes and block types are changed inside the sections and the blob is re-framed uncompressed); exhaustive tag strings up to length 4 (5 thorough) over the tag alphabet with tape sizes 0..6 and zero/one/max value words; truncation at every length; byte mutations and splices of compressed blobs; random bytes. Uncompressed blobs are also run through the Coq model of the framing and reconstruction (same verdict, same tape; never Crash). non-trivial = blob that passes the framing; distinct = by blob bytes"
+	c.Ev.Coverage.Rule = "Deserialize under recover and a deadline, then every read method on each returned result; blobs whose declared section sizes exceed 4 MiB are skipped (the property's 'small enough to allocate'). Streams: structure-aware mutation of valid blobs in all four modes (the framing is parsed, then tag bytes — each position x the 15 meaningful tags and others —, value words (0, +-1, -off, > len, random), declared sizes and block types are changed inside the sections and the blob is re-framed uncompressed); every size varint of the frame (total, tape size, declared and block size of each section) replaced by boundary values up to 2^64-1 and by an overlong varint; exhaustive tag strings up to length 4 (5 thorough) over the tag alphabet with tape sizes 0..6 and zero/one/max value words; truncation at every length; byte mutations and splices of compressed blobs; random bytes. Uncompressed blobs are also run through the Coq model of the framing and reconstruction (same verdict, same tape; never Crash). non-trivial = blob that passes the framing; distinct = by blob bytes"
 	var reqs []string
 	var pends []func(string)
 	// seeds
@@ -242,6 +242,15 @@ func checkC19(c *Ctx) {
 				}
 			}
 			c.tryBlob("structured", rebuild(ts, tags, vals, sd.msg), true, &reqs, &pends)
+		}
+		// framing: every size varint of the frame (total, tape size, declared and block sizes of the four
+		// sections) replaced by boundary values, including 10-byte varints >= 2^63 and an overlong varint
+		for idx := 0; idx < 10; idx++ {
+			orig := sd.fr.field(idx)
+			for _, v := range []uint64{0, 1, orig - 1, orig + 1, 0x7f, 0x80, 1 << 31, 1 << 32, 1 << 62, 1 << 63, 1<<63 + orig, ^uint64(0) - orig, ^uint64(0)} {
+				c.tryBlob("framing", sd.fr.buildWith(idx, v, false), int(sd.fr.Tags.Typ)|int(sd.fr.Vals.Typ)|int(sd.fr.Msg.Typ)|int(sd.fr.Strings.Typ) == 0, &reqs, &pends)
+			}
+			c.tryBlob("framing", sd.fr.buildWith(idx, 0, true), false, &reqs, &pends)
 		}
 		// truncation at every length, byte flips, splices on the original blob (any mode)
 		if si%3 == 0 {
